@@ -84,9 +84,13 @@ def run(ctx):
         ctx.ob("C20.R1", fi, good, "an entry fails when its key is missing on the other side or the values differ", key="failure condition")
         alltrue = [p for p in paths if p.retval == N.TRUE and p is not idp[0]] if idp else []
         ctx.ob("C20.R1", fi, bool(alltrue) and all(not any(e.kind == "RETURN" and e.loops for e in p.events) for p in alltrue), "True only after both loops ran to completion", key="true at end")
-    fi, paths = own_method_paths(ctx, "Container", "__ne__")
-    ok = len(paths) == 1 and paths[0].retval == N.mk_not(N.mk_cmp("==", SELF, other))
-    ctx.ob("C20.R1", fi, ok, "__ne__ is `not self == other`", key="ne")
+    if "__ne__" in M.cls("Container").methods:
+        fi, paths = own_method_paths(ctx, "Container", "__ne__")
+        ok = len(paths) == 1 and paths[0].retval == N.mk_not(N.mk_cmp("==", SELF, other))
+        ctx.ob("C20.R1", fi, ok, "__ne__ is `not self == other`", key="ne")
+    else:
+        # dict defines __ne__, so without an override `!=` is plain dict inequality (which does not ignore '_' entries)
+        ctx.ob("C20.R1", "Container", False, "Container does not override __ne__: `!=` falls through to dict.__ne__, which disagrees with __eq__ on underscore entries", key="ne", loc=CONT)
     ctx.floor("C20.R1", 9)
 
     # ---------------------------------------------------------------- R2
@@ -191,6 +195,13 @@ def run(ctx):
     lc = M.cls("ListContainer")
     over = {"__eq__", "__iter__", "__len__", "__getitem__", "__ne__", "__contains__"} & set(lc.methods)
     ctx.ob("C20.R5", "ListContainer", lc.bases == ["list"] and not over, "ListContainer is a plain list subclass for equality/iteration/indexing (overrides: %s)" % sorted(over), key="ListContainer", loc=CONT)
+    searchable = {c.name for c in M.classes.values() if "_search" in c.methods}
+    for cls in ("Container", "ListContainer"):
+        fi0 = M.method(cls, "_search")
+        for node in ast.walk(fi0.node):
+            if isinstance(node, ast.Call) and isinstance(node.func, ast.Name) and node.func.id == "isinstance" and len(node.args) == 2:
+                names = [e.id for e in (node.args[1].elts if isinstance(node.args[1], ast.Tuple) else [node.args[1]]) if isinstance(e, ast.Name)]
+                ctx.ob("C20.R5", fi0, set(names) <= searchable, "%s._search descends only into classes that define _search (%s); anything else would raise AttributeError, which the blanket handler swallows together with the entry" % (cls, names), key="%s recursion guard" % cls, node=node)
     for cls in ("Container", "ListContainer"):
         fi, paths = own_method_paths(ctx, cls, "_search")
         tests = [g for p in paths for g in p.guards() if any(x[0] == "call" and x[1][0] == "attr" and x[1][2] == "_search" for x in N.walk(g))]
